@@ -550,12 +550,12 @@ static void build_semantic(void)
 	h = alpha_new("cache-response(session ok)");
 	pdu_cache_response(&h->b, SOCKVER, SESSION);
 	h = alpha_new("cache-response(foreign session)");
-	pdu_cache_response(&h->b, SOCKVER, SESSION ^ 0x5555);
+	pdu_cache_response(&h->b, SOCKVER, SESSION ^ 0x0001); /* foreign by one bit of the low octet */
 	h->cls = CL_SESSION;
 	h = alpha_new("end-of-data(session ok)");
 	pdu_eod(&h->b, SOCKVER, SESSION, 9, 3600, 600, 7200);
 	h = alpha_new("end-of-data(foreign session)");
-	pdu_eod(&h->b, SOCKVER, SESSION ^ 0x5555, 9, 3600, 600, 7200);
+	pdu_eod(&h->b, SOCKVER, SESSION ^ 0x0100, 9, 3600, 600, 7200); /* foreign by one bit of the high octet */
 	h->cls = CL_SESSION;
 	h = alpha_new("announce ipv4 absent record");
 	pdu_ipv4(&h->b, SOCKVER, 1, U_PFX[2].len, U_PFX[2].maxlen, U_PFX[2].a[0], U_PFX[2].asn);
